@@ -247,7 +247,22 @@ def build_store(policies, kinds, activate):
     r = w.do((1, 4), W.p_create_key_pair(**W.rsa_pair_attrs()), user='alice')
     extra['alice_default_public'] = r.pfind(W.TAG.PUBLIC_KEY_UNIQUE_IDENTIFIER)
     extra['alice_default_private'] = r.pfind(W.TAG.PRIVATE_KEY_UNIQUE_IDENTIFIER)
+    # a pair whose COMMON template names the user policy while the private half's own template names
+    # 'default': the half's own template governs it (the policy each object is under is what its
+    # creator asked for - REQUESTED below - not what a later read of the store says)
+    pa = W.rsa_pair_attrs()
+    pa['common'] = pa['common'] + [W.attr(AT.OPERATION_POLICY_NAME, 'user')]
+    pa['private'] = pa['private'] + [W.attr(AT.OPERATION_POLICY_NAME, 'default')]
+    r = w.do((1, 4), W.p_create_key_pair(**pa), user='alice')
+    assert r.items[0].ok(), r.brief()
+    extra['alice_mixed_public'] = r.pfind(W.TAG.PUBLIC_KEY_UNIQUE_IDENTIFIER)
+    extra['alice_mixed_private'] = r.pfind(W.TAG.PRIVATE_KEY_UNIQUE_IDENTIFIER)
+    REQUESTED.clear()
+    REQUESTED.update({extra['alice_mixed_public']: 'user', extra['alice_mixed_private']: 'default'})
     return w, uids, helpers, extra
+
+
+REQUESTED = {}
 
 
 def owner_rows(dump):
@@ -273,8 +288,9 @@ def enforce(shape, kinds, activate, part, label):
         types_of = {}
         cols, rows = dump0['managed_objects']
         for r in rows:
-            types_of[str(r[cols.index('uid')])] = (OT(r[cols.index('object_type')]),
-                                                   r[cols.index('operation_policy_name')])
+            u_ = str(r[cols.index('uid')])
+            types_of[u_] = (OT(r[cols.index('object_type')]),
+                            REQUESTED.get(u_, r[cols.index('operation_policy_name')]))
         for user, groups in IDENTITIES:
             # ---- Locate lists exactly what the reference permits
             r = w0.do((1, 4), W.p_locate(), user=user, groups=groups)
